@@ -50,6 +50,30 @@ def _where(e):
     return site
 
 
+def _module_state():
+    """Module-level mutable defaults of MatID that every Classifier shares
+    (N5): the list objects are bound as default arguments at definition time,
+    so they are pinned / restored *in place*."""
+    from matid.data import constants
+
+    return [v for k, v in sorted(vars(constants).items()) if isinstance(v, list) and not k.startswith("_")]
+
+
+_PRISTINE_MODULE_STATE = None
+
+
+def _pristine_module_state():
+    global _PRISTINE_MODULE_STATE
+    if _PRISTINE_MODULE_STATE is None:
+        _PRISTINE_MODULE_STATE = [copy.deepcopy(v) for v in _module_state()]
+    return _PRISTINE_MODULE_STATE
+
+
+def reset_module_state():
+    for lst, pristine in zip(_module_state(), _pristine_module_state()):
+        lst[:] = copy.deepcopy(pristine)
+
+
 class _GlobalEnv:
     """Save / pin / restore the process-global RNG state around a reference
     evaluation, so that the reference neither sees nor disturbs the world."""
@@ -59,11 +83,15 @@ class _GlobalEnv:
         self.py_state = random.getstate()
         np.random.seed(ENV_BASE_SEED)
         random.seed(ENV_BASE_SEED)
+        self.mod_state = [copy.deepcopy(v) for v in _module_state()]
+        reset_module_state()
         return self
 
     def __exit__(self, *a):
         np.random.set_state(self.np_state)
         random.setstate(self.py_state)
+        for lst, saved in zip(_module_state(), self.mod_state):
+            lst[:] = saved
         return False
 
 
@@ -129,6 +157,7 @@ class World:
         np.random.seed(int(k, 16) % (2**32))
         random.seed(int(k, 16))
         np.set_printoptions(edgeitems=3, threshold=1000, precision=8, suppress=False)
+        reset_module_state()
 
     def _atoms(self, sid):
         if sid not in self.atoms:
